@@ -57,7 +57,7 @@ def h_input(n1, nw, n2):
         try:
             tree = lx.parse()
             res = tree
-        except EXC.CompileException as e:
+        except (EXC.CompileException, EXC.SyntaxException) as e:
             exc = e
         return dict(bom=bom, name=name, known=known, actual=actual, nl=nl, first=first, sep=sep, lx=lx, tree=res, exc=exc, data=data, body=body,
                     h1=h1)
@@ -101,7 +101,7 @@ def on_input(p, r, exc, acc):
     acc.counts["%s / %s" % ("bom" if r["bom"] else "nobom", expect[0])] += 1
     acc.vcs += 1
     if expect[0] == "exc":
-        if r["exc"] is None:
+        if r["exc"] is None or not isinstance(r["exc"], EXC.CompileException):
             acc.candidate(kind="no-compile-exception", input=cfg(m), detail=expect[1])
     else:
         # the free characters of the first line may themselves spell a Mako directive (e.g. '#<%coding>...'): then a
